@@ -796,12 +796,30 @@ class Interp:
         self.exec_block(ctx, env, st.orelse)
 
     unroll_limit = 64
+    BOUND = 3
+
+    def bounded_items(self, ctx, it):
+        """a for-loop over a sequence of symbolic length that has no invariant: only sequences of up to BOUND elements are
+        explored. What is established on such a path is a bounded stand-in, never counted as proved; a failed obligation
+        on it counts only if its input fails on the real code."""
+        seq = self.as_seq(ctx, it)
+        n = seq.length
+        if isinstance(n, int):
+            return [seq.elem(j) for j in range(n)]
+        k = ctx.choose([n == j for j in range(self.BOUND + 1)])
+        ctx.bounded.append(f"loop at {ctx.where} has no invariant: unrolled for sequences of up to {self.BOUND} elements only")
+        return [seq.elem(j) for j in range(k)]
 
     def s_For(self, ctx, env, st):
         spec, o = self.loop_spec_for(env, st)
         it = self.eval(ctx, env, st.iter)
         if spec is None:
-            items = self.iterate(ctx, it)
+            try:
+                items = self.iterate(ctx, it)
+            except (Unsupported, PyvcError) as e:
+                if "symbolic" not in str(e):
+                    raise
+                items = self.bounded_items(ctx, it)
             for v in items:
                 self.assign(ctx, env, st.target, v)
                 try:
